@@ -383,8 +383,8 @@ func (e *Engine) relevantFacts(r *FuncResult, o *Obligation) []*Term {
 	constsOf(o.Goal, live)
 	factConsts := make([]map[*Term]bool, o.NFacts)
 	for i, f := range r.Facts[:o.NFacts] {
-		if hasQuant(f) {
-			continue
+		if i < len(r.FactKind) && r.FactKind[i] == "hframe" {
+			continue // frame links relate versions only outside the written range: they do not keep a version live
 		}
 		factConsts[i] = map[*Term]bool{}
 		constsOf(f, factConsts[i])
